@@ -764,6 +764,8 @@ func e(num, flags string) ent {
 var seedPools = []seedDef{
 	{"single", []ent{e("1.0.0", "A")}},
 	{"pair", []ent{e("1.0.0", "A"), e("2.0.0", "A")}},
+	{"dev-and-one-release", []ent{e("0.0.0", "A"), e("1.0.0", "A")}},
+	{"dev-not-on-disk-and-two-releases", []ent{e("0.0.0", ""), e("1.0.0", "A"), e("2.0.0", "A")}},
 	{"mixed5-current-not-downloaded", []ent{e("0.0.0", "A"), e("1.0.0", "A"), e("1.1.0", "A"), e("1.2.0-beta", "A"), e("2.0.0", "C")}},
 	{"six-available", []ent{e("1.0.0", "A"), e("1.1.0", "A"), e("1.2.0-beta", "A"), e("2.0.0", "A"), e("2.1.0", "A"), e("2.2.0-beta", "A")}},
 	{"six-available-inserted-newest-first", []ent{e("2.2.0-beta", "A"), e("2.1.0", "A"), e("2.0.0", "A"), e("1.2.0-beta", "A"), e("1.1.0", "A"), e("1.0.0", "A")}},
@@ -903,12 +905,13 @@ func opBlacklist(sym string) opDef {
 		if t == "" {
 			return "Blacklist:no-such-target"
 		}
-		listed, already := false, false
+		listed, already, targetDev := false, false, false
 		nb, nbRelease := 0, 0
 		for _, x := range before.list {
 			if x.Num == t {
 				listed = true
 				already = already || x.B
+				targetDev = x.v.dev()
 			}
 			if !x.B {
 				nb++
@@ -930,6 +933,12 @@ func opBlacklist(sym string) opDef {
 		}
 		if nb >= 1 && nbAfter == 0 {
 			w.violate("blacklist-last-valid", "Blacklist", "accepted-for-last-non-blacklisted", fmt.Sprintf("Blacklist(%s) returned %v and left no version that is not blacklisted: %s", t, err, after))
+			return "Blacklist:violation"
+		}
+		// Outside dev mode a dev build 0.0.0 does not count as a remaining valid version ("ignore dev versions"
+		// in Blacklist): the last release version that is not blacklisted cannot be blacklisted.
+		if err == nil && listed && !already && !targetDev && !w.cf.Dev && nbRelease == 1 {
+			w.violate("blacklist-last-valid", "Blacklist", "accepted-for-last-release-outside-dev-mode", fmt.Sprintf("dev mode off: Blacklist(%s) returned nil although it was the only release version (other than the dev build 0.0.0) that was not blacklisted; before: %s; after: %s", t, before, after))
 			return "Blacklist:violation"
 		}
 		switch {
@@ -1746,7 +1755,7 @@ func main() {
 		c.Assume("selection is compared where the code computes it (selectVersion/SelectVersions, a successful Blacklist, a GetFile with nothing selected); AddResource is documented as 'does not select new version', so a stale SelectedVersion between AddVersion and the next selection is not a violation")
 		c.Assume("'files of at least the requested number of further versions are still on disk' is read as: at least keep (or all) of the listed versions that are not active/selected/newest stable lose no file; a listed version that had no file counts as kept")
 		c.Assume("newest stable version = newest listed version without the pre-release flag other than the dev version 0.0.0; active version = the version the registry's GetFile handed out last")
-		c.Assume("Blacklist: refusing is required when no other non-blacklisted version (of any kind) would remain, accepting is required when at least two release versions (not 0.0.0) are not blacklisted; in between (only the dev version would remain) both are accepted; re-blacklisting may be refused or accepted")
+		c.Assume("Blacklist: refusing is required when no other non-blacklisted version (of any kind) would remain and, with dev mode off, when the target is the only release version (not the dev build 0.0.0) that is not blacklisted (Blacklist documents 'ignore dev versions' for its count of valid versions); accepting is required when at least two release versions are not blacklisted; with dev mode on and only the dev build remaining, and for blacklisting the dev build itself when at most one release is left, both are accepted; re-blacklisting may be refused or accepted")
 		c.Assume("identifiers of the file-name enumeration do not themselves contain a version marker _v<n>-<n>-<n> in the file name; version strings are those of the documented pattern [0-9]+.[0-9]+.[0-9]+(-[a-z]+)?")
 		c.Assume("GetFile with a selected version that is not on disk while the registry is online would download (network, back-off sleeps): only the selection and the returned File are checked in that case; resources with an empty version list (only reachable by adding an unparsable version) are outside the statement")
 
